@@ -208,12 +208,11 @@ def run(c):
                     nd = dies + [0] * (inc_idx - len(dies)) + [k]
                     nid += 1
                     batch.append(dict(s, id="r%d" % nid, dies=nd))
-        if lv >= 2 and q:
+        # budgets (measured: ~60 runs/s): deeper levels are seeded samples of the full enumeration
+        limit = {1: (None, None), 2: (1500, 20000), 3: (0, 5000)}[lv][0 if q else 1]
+        if limit is not None and len(batch) > limit:
             c.rng.shuffle(batch)
-            batch = batch[:1500]
-        if lv >= 3:
-            c.rng.shuffle(batch)
-            batch = batch[:6000]
+            batch = batch[:limit]
         if not batch:
             break
         crash_points += len(batch)
